@@ -99,13 +99,62 @@ NAMED_ROOTS = [r"^http_util::http_extract_path_params$", r"^extractor::query::ht
                r"^pagination::deserialize_page_token$"]
 
 
+HANDLER_CALL = r"handler::HttpHandlerFunc::handle_request$"
+
+
+def is_unknown_fn(ds, fid):
+    """A crate-local function that is not on tables/known_functions.txt, i.e. one introduced by a refactoring."""
+    from .engine import known_functions
+    k = known_functions()
+    return k is not None and (ds.crate, fid) not in k
+
+
+def lift_site(ds, g, bb, t, max_hops=3):
+    """A call site seen from the caller of a refactoring-introduced *async* helper.
+
+    Plain helper functions are inlined by the engine; an `async fn` helper is not (its body is a coroutine that
+    the caller creates and then awaits).  If the call `t` at (g, bb) sits in the coroutine body of an unknown
+    function that has exactly one live caller, return that caller's call site instead, together with, for every
+    argument of `t`, the slices walked inside the helper(s) and the caller's operand the argument was captured
+    from (None if it is not exactly one parameter of the helper).  The helper's coroutine exists only once the
+    caller's call ran, so a guard that dominates the caller's call guards everything the helper does.
+    Returns (fn, bb, [(inner_slices, operand_or_None), ..])."""
+    from .lib import root_fn
+    args = [([], a) for a in t["args"]]
+    cur, cbb = g, bb
+    for _ in range(max_hops):
+        gt = root_fn(ds, cur)
+        if gt is cur or not is_unknown_fn(ds, gt.id) or ds.body_of(gt) is not cur:
+            break
+        cs = callers(ds, "^" + re.escape(gt.id) + "$")
+        if len(cs) != 1:
+            break
+        f2, b2, t2 = cs[0]
+        new = []
+        for inner, op in args:
+            if op is None:
+                new.append((inner, None))
+                continue
+            sl = cur.slice(op)
+            ps = upvar_params(ds, cur, sl)
+            if ps is None or len(ps) != 1 or not (1 <= list(ps)[0] <= len(t2["args"])):
+                new.append((inner + [sl], None))
+            else:
+                new.append((inner + [sl], t2["args"][list(ps)[0] - 1]))
+        args, cur, cbb = new, f2, b2
+    return cur, cbb, args
+
+
 def generic_route_handler(ctx, R):
     """The coroutine body of the one RouteHandler::handle_request impl that calls
-    HttpHandlerFunc::handle_request (the generic HttpRouteHandler; not the stub)."""
+    HttpHandlerFunc::handle_request (the generic HttpRouteHandler; not the stub) — directly or through an
+    async helper introduced by a refactoring."""
+    ds = ctx.ds
+    lifted = set(lift_site(ds, g, bb, t)[0].id for g, bb, t in callers(ds, HANDLER_CALL))
     out = []
-    for i, f in impl_fns(ctx.ds, r"^handler::RouteHandler", "handle_request"):
-        b = ctx.ds.body_of(f)
-        if b.live_calls(r"handler::HttpHandlerFunc::handle_request$"):
+    for i, f in impl_fns(ds, r"^handler::RouteHandler", "handle_request"):
+        b = ds.body_of(f)
+        if b.id in lifted:
             out.append((f, b))
     if len(out) != 1:
         ctx.lost(R, "the RouteHandler::handle_request impl that calls HttpHandlerFunc::handle_request (%d found)" % len(out))
@@ -170,6 +219,32 @@ def norm_id(fid):
     meets first (`api_description::_::_serde::Deserializer`, with usdt-probes `dtrace::_::_serde::..`): not stable
     across feature configurations, so keys use the plain crate path."""
     return re.sub(r"\b(?:\w+::)+_::_serde::", "serde::", fid)
+
+
+def census_owners(ds, f):
+    """Outermost named function(s) a body belongs to: closures, async bodies and generator bodies are attributed to
+    the function they are written in, so that a census key does not change when code moves between a function and
+    one of its closures (`.map_err(|e| ..)` <-> `match`).  A closure written inside a helper that the engine inlined
+    belongs to every function the helper was inlined into."""
+    cur = f
+    for _ in range(12):
+        if cur.raw["kind"] != "Closure":
+            return [cur.id]
+        par = cur.raw.get("parent")
+        if par in ds.F:
+            cur = ds.F[par]
+            continue
+        hosts = [g for g in ds.F.values() if par in g.raw.get("inlined", []) and g.raw["kind"] != "Closure"]
+        if not hosts:
+            hosts = [g for g in ds.F.values() if par in g.raw.get("inlined", [])]
+            out = []
+            for g in hosts:
+                for o in census_owners(ds, g):
+                    if o not in out:
+                        out.append(o)
+            return out or [cur.id]
+        return [g.id for g in hosts]
+    return [cur.id]
 
 
 # --------------------------------------------------------------------------- panic sites
